@@ -377,6 +377,22 @@ theorem MRootTail_splitRoot_rsOf_partial (Q : (d : Nat) → MTree r d → Prop)
       exact hframe id (fun e => hn' ((hmem id).mpr (Or.inr (Or.inl e)))) (fun e => hn' ((hmem id).mpr (Or.inl e)))
         (fun e => hn (e ▸ hrootI))
 
+/-- EVIDENCE for the note above: `MQ T D` is false of every root `OMap.splitRoot` builds (its `root` flag is `true`, `MQ`
+    demands `top = false`), so `mds_RootPre (MQ T D) _ _ m3 _` cannot hold of the model's result -/
+theorem mts_MQ_newRoot_false (m : OMap r) (l rr : MTree r m.d) : ¬ MQ T D (m.d + 1) (mrs_newRoot m l rr) := by
+  intro h
+  have h1 : MetaLoose T D m.d false (mrs_newRoot m l rr) ∧ 1 ≤ (mrs_newRoot m l rr).children.length := h.sinv
+  have h2 : (mrs_newRoot m l rr).root = false := h1.1.1
+  cases h2
+
+theorem mts_MQ_splitRoot_false (m m3 : OMap r) (c c3 : Ctx) (h : m.splitRoot c = .ok (m3, c3)) : ¬ MQ T D m3.d m3.root := by
+  rw [mrs_splitRoot_model] at h
+  rcases hsp : MTree.split m.d (mrs_rootOld m c) (c.alloc m.rootID.addr).2 with e | ⟨l, rr, c2⟩
+  · simp only [hsp] at h; cases h
+  · simp only [hsp] at h
+    cases h
+    exact mts_MQ_newRoot_false m l rr
+
 end
 
 end Atree.TransEq
